@@ -137,10 +137,55 @@ func c04Edit(c *Sexp) *Sexp {
 	}
 	d, audit := ObserveTree(t)
 	obs := []*Sexp{KV("operr", A(errStr(operr))), KV("tree", d), KV("audit", audit)}
-	if operr == nil && len(audit.List) == 0 {
-		obs = append(obs, c04Tables(t)...)
+	if operr == nil {
+		// the tables are reported whatever the structural audit says: the judge compares them
+		// with the splits of the dumped tree
+		obs = append(obs, c04SafeTables(t)...)
+		obs = append(obs, c04AgainstCopy(t, d)...)
 	}
 	return L(obs...)
+}
+
+func c04SafeTables(t *tree.Tree) (r []*Sexp) {
+	defer func() {
+		if p := recover(); p != nil {
+			r = []*Sexp{KV("err", A(fmt.Sprintf("panic while reading the tables: %v", p)))}
+		}
+	}()
+	return c04Tables(t)
+}
+
+// c04AgainstCopy builds an independent tree from the dump of the edited tree, indexes it, and
+// compares every branch of the edited tree with every branch of the copy.
+func c04AgainstCopy(t *tree.Tree, dump *Sexp) (r []*Sexp) {
+	defer func() {
+		if p := recover(); p != nil {
+			r = []*Sexp{KV("copyerr", A(fmt.Sprintf("panic: %v", p)))}
+		}
+	}()
+	cp, err := BuildTree(dump)
+	if err != nil {
+		return []*Sexp{KV("copyerr", A("build: " + err.Error()))}
+	}
+	if err := cp.ReinitIndexes(); err != nil {
+		return []*Sexp{KV("copyerr", A("reinit: " + errStr(err)))}
+	}
+	e1 := t.Edges()
+	e2 := cp.Edges()
+	for _, e := range e1 {
+		if e.Bitset() == nil {
+			return []*Sexp{KV("copyerr", A("a branch has no bitset"))}
+		}
+	}
+	same := make([]bool, 0, len(e1)*len(e2))
+	heq := make([]bool, 0, len(e1)*len(e2))
+	for _, x := range e1 {
+		for _, y := range e2 {
+			same = append(same, x.SameBipartition(y))
+			heq = append(heq, x.HashCode() == y.HashCode())
+		}
+	}
+	return []*Sexp{KV("copyerr", A("")), KV("samecopy", c04BoolBits(same)), KV("heqcopy", c04BoolBits(heq))}
 }
 
 func c04Tables(t *tree.Tree) []*Sexp {
